@@ -246,6 +246,32 @@ def decode_mp(c, vals):
     }
 
 
+def decode_prep(short, vals):
+    """prep_unit_n<k>_<noincl|hN>_<req|any>: len:u64 | 3 x (a:u64 b:u64). A multi-range GET; without
+    entity headers in the parts = with an If-Range that matches the entity's strong ETag."""
+    r = Reader(vals)
+    ln = r.u64()
+    rs = [(r.u64(), r.u64()) for _ in range(3)]
+    parts = short.split("_")
+    n = int(parts[2][1:])
+    incl = parts[3] != "noincl"
+    nhdr = int(parts[3][1:]) if incl else 1
+    specs = []
+    for (a, b) in rs[:n]:
+        if not (a < b <= ln):
+            return None
+        specs.append("%d-%d" % (a, b - 1))
+    headers = [["range", "bytes=" + ", ".join(specs)]]
+    if not incl:
+        headers.append(["if-range", '"a"'])
+    hdrs = [["content-type", "text/plain"], ["content-language", "en"]][:nhdr]
+    return {
+        "kind": "serve", "method": "GET", "headers": headers,
+        "entity": {"len": ln, "etag": '"a"', "mtime": None, "headers": hdrs},
+        "now_secs": 1000000, "scripts": [[], [], []], "polls": 24,
+    }
+
+
 def decode_precond(arms, vals):
     """precond_gNN: sk:u16 has_mtime:bool m_secs:u64 m_nanos:u32 ius:u64 ims:u64"""
     r = Reader(vals)
